@@ -67,6 +67,9 @@ def answer(out):
         if isinstance(out["ok"], dict) and "hyp" in out["ok"]:
             # fitGuards: the hypotheses of `delete_total` are used relationally only (`check_fit_guards`)
             return {k: v for k, v in out["ok"].items() if k != "hyp"}
+        if isinstance(out["ok"], dict) and "rel" in out["ok"]:
+            # fitEmit: the in-step trace and the hypotheses are used relationally only (`check_fit_emit`)
+            return {k: v for k, v in out["ok"].items() if k != "rel"}
         return out["ok"]
     if out.get("err") == "raises":
         return RAISES
@@ -185,6 +188,114 @@ def tie_fit_guards(ctx, info, doc, f, t, sl, st, reqs, metas):
     reqs.append({"op": "fitGuards", "s": info.lean_id, "doc": info.node(doc), "from": f, "to": t, "slice": info.slice(sl)})
     metas.append(("fitGuards", replay, exp))
     ctx.count("fit guards: partial=%s term=%s wf=%s" % (exp["partial"], exp["term"], exp["wf"]))
+
+
+def open_payload_problem(val, sl):
+    """independent payload check of an emitted slice (harness/validator.py, working on JSON): every node *off* the two open
+    spines must be fully valid; returns the first problem or None.  (Spine nodes are validated by `replace` when it joins them.)"""
+    def walk(frag, a, b):
+        n = frag.child_count
+        for i in range(n):
+            c = frag.child(i)
+            on_start, on_end = (i == 0 and a > 0), (i == n - 1 and b > 0)
+            if not on_start and not on_end:
+                p = val.problem(c.to_json(), "slice")
+                if p:
+                    return p
+            else:
+                if c.is_leaf:
+                    return "open depth reaches a leaf/text node"
+                p = walk(c.content, a - 1 if on_start else 0, b - 1 if on_end else 0)
+                if p:
+                    return p
+        return None
+    return walk(sl.content, sl.open_start, sl.open_end)
+
+
+def tie_fit_emit(ctx, info, val, doc, f, t, sl, reqs, metas):
+    """well-formedness of the step replace_step emits (Props/C11.lean `fit_emits_wf_partial`, `delete_emits_wf`,
+    `insertInline_emits_wf`): the model evaluates `StepWF`, `aroundShape` and the start half on its own emitted step; compared
+    exactly with the same predicates on the real step.  The real step's payload is checked with the independent validator."""
+    replay = {"schema": info.name, "doc": doc.to_json(), "from": f, "to": t, "slice": sl.to_json()}
+    st, step = outcome(lambda: replace_step(doc, f, t, sl))
+    if st == "hang":
+        exp = {"kind": "outOfFuel", "wf": None, "left": None, "shape": None}
+    elif st != "ok":
+        exp = {"kind": "raises", "wf": None, "left": None, "shape": None}
+    elif step is None:
+        exp = {"kind": "none", "wf": None, "left": None, "shape": None}
+    else:
+        s_ = step.slice
+        start_ok = s_.open_start <= _spine(s_.content, False)
+        if isinstance(step, ReplaceAroundStep):
+            ins_ok = step.insert <= s_.size
+            ordered = step.from_ <= step.gap_from <= step.gap_to <= step.to
+            exp = {"kind": "around", "wf": slice_wf(s_) and ins_ok, "left": start_ok and ins_ok,
+                   "shape": slice_wf(s_) and ins_ok and ordered}
+        else:
+            exp = {"kind": "replace", "wf": slice_wf(s_), "left": start_ok, "shape": None}
+        replay["step"] = step.to_json()
+        prob = open_payload_problem(val, s_) if slice_wf(s_) else "not well-formed"
+        replay["payload"] = prob
+        ctx.count("fit emit: payload of the real step " + ("valid" if prob is None else "INVALID"))
+    reqs.append({"op": "fitEmit", "s": info.lean_id, "doc": info.node(doc), "from": f, "to": t, "slice": info.slice(sl)})
+    metas.append(("fitEmit", replay, exp))
+
+
+def _spine(frag, last):
+    d = 0
+    while frag.child_count:
+        n = frag.last_child if last else frag.first_child
+        if n.is_leaf:
+            break
+        d, frag = d + 1, n.content
+    return d
+
+
+def check_fit_emit(ctx, replay, out):
+    """relational part of `fitEmit`: (1) the theorems' conclusions on the model's own answer: start half always; `StepWF` when
+    the hypotheses of delete_emits_wf / insertInline_emits_wf hold; (2) in-step over the whole loop => `StepWF`; (3) the real
+    step's payload is valid (independent validator) whenever the model's hypotheses hold"""
+    g = out.get("ok")
+    if not isinstance(g, dict):
+        return
+    rel = g.get("rel") or {}
+    cls = rel.get("cls")
+    ctx.count("fit emit guards: labelsOKB=%s unplacedWfRun=%s textStableC=%s" % (rel.get("labels"), rel.get("uWfRun"), rel.get("textStable")))
+    for kk in ("uStart", "uEnd"):
+        if rel.get(kk) is not None:
+            ctx.count("fit emit: unplaced %s half well-formed over the loop: %s" % ("start" if kk == "uStart" else "end", rel[kk]))
+    if rel.get("coherent") is not None:
+        # candidate key invariant of fit_emits_valid_payload (lean/PM/Fitter.lean `FitState.coherentB`): frontier[i].match is the
+        # automaton state after the children placed at level i — evaluated after every iteration
+        ctx.count("fit emit: frontier coherent with placed over the loop (%s slice): %s" % (cls, rel["coherent"]))
+    if g.get("kind") in ("replace", "around"):
+        ctx.count("fit emit: %s slice -> %s, StepWF=%s" % (cls, g["kind"], g.get("wf")))
+        if g.get("left") is not True:
+            ctx.mismatch("fitEmit:start-half-false (fit_emits_wf_partial)", replay, True, g)
+        if rel.get("hyp") and cls in ("empty", "inline") and replay["from"] <= replay["to"]:
+            ctx.count("fit emit: hypotheses of %s hold" % ("delete_emits_wf" if cls == "empty" else "insertInline_emits_wf"))
+            if g.get("wf") is not True or (g["kind"] == "around" and g.get("shape") is not True):
+                ctx.mismatch("fitEmit:hypotheses-true-but-not-StepWF", replay, True, g)
+        # fit_emits_wf (Props/C11.lean): schema/document hypotheses, a well-formed request slice and `unplacedWfRun`
+        # (the unplaced slice stays Slice.wf over the run) => StepWF (and aroundShape)
+        if rel.get("hyp") and rel.get("labels") and rel.get("slWf") and replay["from"] <= replay["to"]:
+            if rel.get("uWfRun"):
+                ctx.count("fit emit: hypotheses of fit_emits_wf hold (%s slice)" % cls)
+                if g.get("wf") is not True or (g["kind"] == "around" and g.get("shape") is not True):
+                    ctx.mismatch("fitEmit:fit_emits_wf-hypotheses-true-but-not-StepWF", replay, True, g)
+            else:
+                ctx.count("fit emit: unplacedWfRun false (%s slice)" % cls)
+        if rel.get("inStep") is not None:
+            ctx.count("fit emit: in-step invariant over the loop (%s slice): %s" % (cls, rel["inStep"]))
+            if rel["inStep"] and g.get("wf") is not True:
+                ctx.mismatch("fitEmit:in-step-but-not-StepWF", replay, True, g)
+        if g.get("wf") is not True:
+            ctx.count("fit emit: emitted step NOT StepWF (%s slice)" % cls)
+        if rel.get("hyp") and replay.get("payload") is not None:
+            ctx.mismatch("fitEmit:payload-of-real-step-invalid", replay, None, replay.get("payload"))
+    elif rel.get("inStep") is not None:
+        ctx.count("fit emit: in-step invariant over the loop (%s slice, no step): %s" % (cls, rel["inStep"]))
 
 
 def check_fit_guards(ctx, replay, out):
@@ -392,4 +503,4 @@ def tie_close_fragment(ctx, info, sl, reqs, metas):
 
 
 EXACT_OPS = ("fitsTrivially", "replaceStepTrivial", "deleteRangeTarget", "deleteRangeStep", "replaceStep", "fillBeforeO",
-             "findWrappingO", "replaceRangePlan", "replaceRangeWithPlan", "replaceRangeWithTarget", "closeSlice", "fitGuards")
+             "findWrappingO", "replaceRangePlan", "replaceRangeWithPlan", "replaceRangeWithTarget", "closeSlice", "fitGuards", "fitEmit")
